@@ -322,8 +322,13 @@ def initial_states():
     return out
 
 
+CAP = [4000, 0]      # states per job, states dropped because of it
+
+
 def _job(args):
     flow, dim, ptc, ghost, depth, init_idx = args
+    CAP[0] = 4000 if depth <= 3 else 100000
+    CAP[1] = 0
     world = World(flow, dim, ptc, ghost)
     L, fl = world.L, world.fl
     init = initial_states()[init_idx]
@@ -380,19 +385,24 @@ def _job(args):
                     # after a step, outlet particles keep their (possibly
                     # defaulted) values; encode by uid of defaulted props
                     k = canon(exp)
-                    if k not in seen and len(seen) < 4000:
+                    if k not in seen and len(seen) >= CAP[0]:
+                        CAP[1] += 1
+                    if k not in seen and len(seen) < CAP[0]:
                         seen.add(k)
                         nstates += 1
                         if ptc is None:
                             nxt.append((exp, h2))
         frontier = nxt
-    return nstates, ntrans, {k: (w, dict(rep, flow=flow, dim=dim, ghost=ghost,
-                                          props_to_copy=ptc, init=init_idx))
-                             for k, (w, rep) in viol.items()}
+    out = {k: (w, dict(rep, flow=flow, dim=dim, ghost=ghost,
+                       props_to_copy=ptc, init=init_idx))
+           for k, (w, rep) in viol.items()}
+    if CAP[1]:
+        out['__dropped__'] = CAP[1]
+    return nstates, ntrans, out
 
 
 def run(ctx):
-    depth = 3 if ctx.thorough else 2
+    depth = 4 if ctx.thorough else 2
     jobs = []
     flows = [('+x', 1), ('-x', 1), ('+y', 2), ('xy', 2), ('xyz', 3),
              ('+z', 3), ('skew', 3)]
@@ -407,7 +417,7 @@ def run(ctx):
                     if ghost == 'by' and flow not in ('+x', '+y', 'skew'):
                         continue
                     jobs.append((flow, dim, ptc, ghost, depth, ii))
-    scripts = manager_scripts(3 if ctx.thorough else 2)
+    scripts = manager_scripts(4 if ctx.thorough else 2)
     mjobs = []
     for fam in FAMILIES:
         k = max(1, len(scripts) // 6)
@@ -433,6 +443,7 @@ def run(ctx):
     viol = {}
     ns = nt = 0
     nms = nmt = 0
+    dropped = 0
     for job, r in zip(mjobs, both[len(jobs):]):
         if isinstance(r, Crash):
             viol.setdefault('io:manager:crash:%s' % job[0], (
@@ -449,6 +460,7 @@ def run(ctx):
         a, b, v = r
         ns += a
         nt += b
+        dropped += v.pop('__dropped__', 0)
         for k, x in v.items():
             viol.setdefault(k, x)
     vs = [Violation(k, '%s [%r]' % (w, rep), rep)
@@ -456,7 +468,9 @@ def run(ctx):
     ns += nms
     nt += nmt
     cov = dict(states=ns, transitions=nt, traces_validated_against_impl=nt,
-               depth=depth, exhaustive=True, manager_histories=nms,
+               depth=depth, exhaustive=(dropped == 0),
+               states_not_expanded_because_of_the_per_job_cap=dropped,
+               manager_histories=nms,
                manager_updates=nmt, families=FAMILIES,
                samples=[dict(flow='+x', init=initial_states()[0],
                              moves=[list(m) for m in MOVES[:3]])],
@@ -478,7 +492,7 @@ def run(ctx):
                     'through the update objects returned by '
                     'get_inlet_outlet (the family\'s own Inlet / Outlet '
                     'classes) and compared with a bookkeeping model'
-                    % (depth, len(MOVES), 3 if ctx.thorough else 2))
+                    % (depth, len(MOVES), 4 if ctx.thorough else 2))
     assumptions = ['a particle exactly on an interface plane may go either '
                    'way: such states are not generated',
                    'the InletBase/OutletBase objects are driven directly '
